@@ -296,8 +296,12 @@ func distinctWire(group []c23Op) {
 			}
 			if group[j].Kind == "range" {
 				group[j].EndSlot += uint64(j) + 1
+			} else if group[j].ReqOrigin {
+				// origin is only generated for requests that must fail; any hash
+				// that belongs to no block keeps it that way
+				group[j].ReqOrigin, group[j].ReqIsRand = false, true
+				group[j].ReqHash = strings.Repeat(fmt.Sprintf("%02x", 0x50+j), 32)
 			} else {
-				group[j].ReqOrigin = false
 				group[j].ReqSlot += uint64(j) + 1
 			}
 		}
@@ -1186,9 +1190,23 @@ func evDesc(evs []bfEvent) []string {
 
 func opDesc(op c23Op) string {
 	var sb strings.Builder
-	fmt.Fprintf(&sb, "%s/%s req=%s", op.Kind, op.Shape, op.ReqHash[:12])
+	req := "origin"
+	if !op.ReqOrigin {
+		req = fmt.Sprintf("%d:%.12s", op.ReqSlot, op.ReqHash)
+	}
+	q := ""
+	if op.Queued {
+		q = "queued "
+	}
+	fmt.Fprintf(&sb, "%s%s/%s req=%s", q, op.Kind, op.Shape, req)
+	if op.Silent {
+		sb.WriteString(" silent")
+	}
+	if op.CbErrAt > 0 {
+		fmt.Fprintf(&sb, " cberr@%d", op.CbErrAt)
+	}
 	for _, r := range op.Serve {
-		fmt.Fprintf(&sb, " %d~%d", r.Fixture, r.Salt)
+		fmt.Fprintf(&sb, " %d~%d~%d", r.Fixture, r.Salt, r.Pad)
 	}
 	fmt.Fprintf(&sb, " f=%v", op.Flush)
 	return sb.String()
